@@ -52,6 +52,7 @@ def instances(tier, seed):
         for space in ("GS",):
             out.append(dict(op="evolve_exact", cls=cls, space=space, label="evolve_exact %s %s symbolic offset" % (cls, space), key="evolve_exact/%s" % cls))
     out.append(dict(op="max_entangled", label="max_entangled_gs is the normalised identity", key="max_entangled"))
+    out.append(dict(op="thermalprop_step", label="ThermalProp single step: which Hamiltonian, which offset, which time step", key="thermalprop"))
     out.append(dict(op="normalize", label="normalize kinds", key="normalize"))
     return out
 
@@ -214,6 +215,58 @@ def make_harness(P):
                     ctx.check("normalize(mps_and_coeff): prefactor becomes its phase", ctx.eq(psi.coeff * abs(c0), c0))
                 else:
                     ctx.check("normalize(mps_norm_to_coeff): the norm moves into the prefactor (represented vector unchanged)", ctx.eq(psi.coeff, c0 * N))
+            return
+        if op == "thermalprop_step":
+            # the plumbing of one imaginary-time step of the thermal job: the propagated state comes from model A, the Hamiltonian from `h_mpo_model` = model B
+            from renormalizer.model import Model, Op, basis as ba
+            from renormalizer.mps.thermalprop import ThermalProp
+            from checks.c17 import _mpo_stubs
+            basis = [ba.BasisHalfSpin("s0"), ba.BasisHalfSpin("s1")]
+            fa = [ctx.real("fa%d" % k, 0.4 + 0.3 * k) for k in range(2)]
+            fb = [ctx.real("fb%d" % k, -0.7 + 0.5 * k) for k in range(3)]
+            E = ctx.real("E", 0.37)
+            for v in fa + fb:
+                ctx.assume(ctx.all([abs(v) > 1e-6, ctx.le(abs(v), 4)]), "1e-6 < |f| <= 4")
+            ctx.assume(ctx.any([E == 0, abs(E) > 1e-6]), "offset zero or above 1e-6")
+            model_a = Model(basis, [Op("Z", "s0", fa[0]), Op("X X", ["s0", "s1"], fa[1])])
+            terms_b = [Op("Z", "s1", fb[0]), Op("X X", ["s0", "s1"], fb[1]), Op("Z Z", ["s0", "s1"], fb[2])]
+            model_b = Model(basis, terms_b)
+            calls = []
+
+            class FakeState:
+                model = model_a
+
+                def evolve(self, h, dt, *a, **k):
+                    calls.append((h, dt))
+                    return "evolved"
+            # the operator construction inside evolve_prop uses the default algo='qr' (pivoted-QR contract: heavy and irrelevant here), so `Mpo` is replaced
+            # inside the thermalprop module by a recorder: WHICH model and WHICH offset the step Hamiltonian is built from is the question
+            from renormalizer.mps import thermalprop as tpmod
+            built = []
+
+            class RecMpo:
+                def __init__(self, model, *a, offset=None, **k):
+                    built.append((model, offset))
+                    self.model, self.offset = model, offset
+            real_mpo = tpmod.Mpo
+            tpmod.Mpo = RecMpo
+            try:
+                tp = ThermalProp.__new__(ThermalProp)
+                tp.h_mpo = RecMpo(model_b)
+                built.clear()
+                tp.energies = [ctx.real("E_old", -0.2), E]
+                tp.exact = False
+                tp.space = "GS"
+                dt = -0.1j
+                ret = tp.evolve_prop(FakeState(), dt)
+            finally:
+                tpmod.Mpo = real_mpo
+            ctx.check("ThermalProp.evolve_prop evolves the state once, with the step it was given and the operator it just built",
+                      len(calls) == 1 and calls[0][1] == dt and ret == "evolved" and len(built) == 1 and calls[0][0].model is built[0][0])
+            off = built[0][1] if built else None
+            offv = off.as_au() if hasattr(off, "as_au") else off
+            ctx.check("ThermalProp.evolve_prop builds the step Hamiltonian from h_mpo_model (not from the model the state carries), shifted by the LAST energy",
+                      ctx.all([bool(built) and built[0][0] is model_b, ctx.eq(offv, E) if built else False]))
             return
         if op == "propagator_ex":
             model, phs = holstein_ex(P["scheme"], P.get("nlev", 3))
